@@ -147,7 +147,7 @@ func ecsAnswer(kind string, req *dns.Msg) (resp *dns.Msg) {
 	resp.AuthenticatedData = true
 	// "odd." echoes a non-zero scope even for a zero-prefix query.
 	odd := name == "odd."
-	dep := name == "dep." || name == "dep2." || name == "depfx." || name == ecsFakeName || odd
+	dep := name == "dep." || name == "dep2." || name == "depfx." || name == "depbad." || name == ecsFakeName || odd
 	cl := dns.Class(q.Qclass).String()
 	sub := 0
 	if dep && name != ecsFakeName && sn != nil && sn.SourceNetmask > 0 {
@@ -214,6 +214,12 @@ func ecsAnswer(kind string, req *dns.Msg) (resp *dns.Msg) {
 				Code: dns.EDNS0SUBNET, Family: sn.Family, SourceNetmask: sn.SourceNetmask, SourceScope: scope,
 				Address: append(net.IP{}, sn.Address...),
 			})
+			if name == "depbad." && scope > 0 {
+				// A sloppy upstream: the echoed address has bits set beyond the
+				// prefix, which makes the option malformed.
+				o := ropt.Option[len(ropt.Option)-1].(*dns.EDNS0_SUBNET)
+				o.Address[len(o.Address)-1] |= 1
+			}
 		}
 	}
 
